@@ -97,7 +97,9 @@ func (s *SpokFile) buildGraph(requested ...string) (*dag.Graph[string, task.Task
 	// DAG of tasks using the name as the unique id
 	graph := dag.New[string, task.Task]()
 
-	// TODO: Make this recursive so it will go through dependencies of dependencies
+	// Go through dependencies of dependencies too, so the graph holds every task
+	// reachable from the requested ones
+	requested = s.withTransitiveDependencies(requested)
 	for _, name := range requested {
 		requestedTask, ok := s.Tasks[name]
 		if !ok {
@@ -152,6 +154,27 @@ func (s *SpokFile) buildGraph(requested ...string) (*dag.Graph[string, task.Task
 	return graph, nil
 }
 
+// withTransitiveDependencies returns the requested task names followed by the names of every
+// task reachable from them through declared task dependencies. Names that are not defined
+// in the spokfile are left for buildGraph to report.
+func (s *SpokFile) withTransitiveDependencies(requested []string) []string {
+	all := make([]string, 0, len(requested))
+	seen := make(map[string]bool, len(requested))
+	all = append(all, requested...)
+	for _, name := range requested {
+		seen[name] = true
+	}
+	for i := 0; i < len(all); i++ {
+		for _, dep := range s.Tasks[all[i]].TaskDependencies {
+			if !seen[dep] && s.HasTask(dep) {
+				seen[dep] = true
+				all = append(all, dep)
+			}
+		}
+	}
+	return all
+}
+
 // Run runs the specified tasks, it takes force which is a boolean flag set by the CLI which
 // always reruns tasks and an io.Writer which is used only to echo the commands being run, the command's stdout and stderr
 // is stored in the result.
@@ -173,6 +196,11 @@ func (s *SpokFile) Run(stream iostream.IOStream, runner shell.Runner, force bool
 	runOrder, err := dag.Sort()
 	if err != nil {
 		return nil, err
+	}
+	// Tasks that are part of (or depend on) a cycle never reach an in-degree of 0
+	// so they are missing from the sorted result
+	if len(runOrder) != dag.Order() {
+		return nil, errors.New("task dependencies contain a cycle, cannot determine a run order")
 	}
 	names := make([]string, 0, len(runOrder))
 	for _, taskToRun := range runOrder {
